@@ -61,6 +61,10 @@ type c15Case struct {
 	PubRank        int    // when the public-IP fetch completes relative to the calls
 	RDNS           bool
 	Free           bool // no scripted order: real scheduler, only the spec is checked
+	// CancelAt > 0: the caller's context is cancelled at that virtual instant, while calls are being
+	// launched or are in flight. The stubs (like the UDP/TCP runs) do not look at the context and
+	// succeed: the request must still return everything it was asked for, or an error.
+	CancelAt time.Duration
 }
 
 func (c c15Case) n() int { return c.NRuns + c.NProbes }
@@ -220,7 +224,13 @@ func c15Run(t *testing.T, c c15Case) c15Outcome {
 		if c.Free {
 			params.Timeout = 0
 		}
-		res, err := tr.RunTraceroute(context.Background(), params)
+		ctx, cancel := context.WithCancel(context.Background())
+		defer cancel()
+		if c.CancelAt > 0 && !c.Free {
+			tm := time.AfterFunc(c.CancelAt, cancel)
+			defer tm.Stop()
+		}
+		res, err := tr.RunTraceroute(ctx, params)
 
 		out.IsOK = map[int]bool{}
 		if err != nil {
@@ -404,6 +414,11 @@ func TestC15(t *testing.T) {
 			c.Fail[k] = pFail > 0 && rng.Chance(pFail, 8)
 			c.Wrap[k] = rng.Intn(7)
 			c.NoDest[k] = k >= nr && rng.Chance(1, 5)
+		}
+		if rng.Chance(1, 3) {
+			// the e2e probes are launched MaxTTL*Timeout/E2eQueries apart (here: 3 ms / NProbes): the
+			// caller's context is cancelled somewhere in the launch phase or while calls are in flight
+			c.CancelAt = time.Duration(rng.Range(1, 30000)) * time.Microsecond
 		}
 		cases = append(cases, c)
 	}
